@@ -72,7 +72,9 @@ class Sym:
 
     @property
     def real(self):
-        return self
+        # in a component whose partials are complex-step approximated, taking the real part discards the perturbation:
+        # keep it visible (same value, but the complex-step model of the differentiator gives it derivative zero)
+        return realpart(self) if CS_MODE[0] else self
 
     @property
     def imag(self):
@@ -520,6 +522,15 @@ def log(a: Sym) -> Sym:
     return _mk("log", (a,), _h("log", a.fp))
 
 
+CS_MODE = [False]  # set by the harness while it runs a component whose partials are complex-step approximated
+
+
+def realpart(a: Sym) -> Sym:
+    if a.op in ("const", "re"):
+        return a
+    return _mk("re", (a,), a.fp)
+
+
 def fabs(a: Sym) -> Sym:
     if a.op == "const":
         return const(abs(a.args[0]))
@@ -847,6 +858,9 @@ def evalf(roots, env: dict, cplx=False):
             v = np.log(a) if (cplx or a > 0) else math.nan
         elif op == "abs":
             v = abs(val[n.args[0].nid])
+        elif op == "re":
+            v = val[n.args[0].nid]
+            v = v.real if isinstance(v, complex) else v
         elif op == "pow":
             a = val[n.args[0].nid]
             v = a ** float(n.args[1]) if (cplx or a > 0) else math.nan
@@ -928,7 +942,7 @@ def substitute(roots, mapping: dict):
         elif op == "ufn":
             r = ufn(n.args[0], n.args[1], [new[a.nid] for a in n.args[2:]])
         else:
-            r = {"sqrt": sqrt, "sin": sin, "cos": cos, "atan": atan, "exp": exp, "log": log, "abs": fabs}[op](
+            r = {"sqrt": sqrt, "sin": sin, "cos": cos, "atan": atan, "exp": exp, "log": log, "abs": fabs, "re": realpart}[op](
                 new[n.args[0].nid]
             )
         new[n.nid] = r
